@@ -39,6 +39,10 @@ BASE = {
               "  subroutine pu(x)\n    type(tt) :: x\n    call x%m(1)\n  end subroutine pu\nend module pbm\n",
     "long.f90": "module longm\n  integer :: a_rather_long_name_for_a_variable = 1234567890 + 1234567890 + 12345\n"
                 "  ! a comment line that is longer than the configured sixty characters, clearly\nend module longm\n",
+    # two files declare a module of the same name (as test programs of one project do)
+    "dup_a.f90": "module dupm\n  integer :: xa\nend module dupm\n",
+    "dup_b.f90": "module dupm\n  integer :: xb\nend module dupm\n",
+    "dup_c.f90": "program dupc\n  use dupm\n  xa = 1\n  xb = 2\nend program dupc\n",
     "w.f90": "subroutine uses_inc()\n  include 'inc.f90'\n  from_inc = 1\nend subroutine uses_inc\n",
 }
 
@@ -51,6 +55,12 @@ BASE_SM1_RENAMED = BASE["sm1.f90"].replace("parentm", "parentm2")
 # each history: list of (op, file, new text or None); ops: save (write to disk + didSave), change (didChange full text,
 # no disk write), open, close, delete (remove from disk + didClose), create (write + didOpen)
 HISTORIES = {
+    "duplicate_module_first_file_saved": [("save", "dup_a.f90", BASE["dup_a.f90"] + "! c\n")],
+    "duplicate_module_second_file_saved": [("save", "dup_b.f90", BASE["dup_b.f90"] + "! c\n")],
+    "duplicate_module_both_saved": [("save", "dup_b.f90", BASE["dup_b.f90"] + "! c\n"), ("save", "dup_a.f90", BASE["dup_a.f90"] + "! c\n")],
+    "duplicate_module_dropped_by_one_file": [("save", "dup_b.f90", "module other_name\n  integer :: xb\nend module other_name\n"), ("query", None, None),
+                                             ("save", "dup_a.f90", BASE["dup_a.f90"] + "! c\n")],
+    "duplicate_module_file_deleted_and_back": [("delete", "dup_b.f90", None), ("query", None, None), ("create", "dup_b.f90", BASE["dup_b.f90"])],
     "rename_component": [("save", "t.f90", BASE["t.f90"].replace("old_c", "new_c")),
                          ("save", "u.f90", BASE["u.f90"].replace("old_c", "new_c")),
                          ("save", "p.f90", BASE["p.f90"].replace("old_c", "new_c"))],
